@@ -69,6 +69,25 @@ theorem C20_syntax_within_declared_python :
   have := (List.all_eq_true.mp h) f hf
   cases h2 : f.2 <;> simp [h2] at this ⊢
 
+/-- is keyword `k` accepted by the installed callable `c` (callables whose signature cannot be introspected are not
+decided here: they are absent from the table) -/
+def kwAccepted (c k : String) : Bool :=
+  match Env.signatures.lookup c with
+  | some (names, varkw) => varkw || names.contains k
+  | none => true
+
+def kwOk (r : Refs.KwRef) : Bool := r.guarded || kwAccepted r.callee r.keyword
+
+/-- every keyword argument that the source passes BY NAME to a numpy / scipy / h5py / standard-library callable is a
+parameter of that callable in the installed library (a renamed or removed parameter such as `np.reshape(newshape=…)`
+fails exactly like a removed attribute does, although the attribute chain itself still resolves) -/
+theorem C20_call_keywords_accepted :
+    ∀ r ∈ Refs.kwrefs, r.guarded = true ∨ kwAccepted r.callee r.keyword = true := by
+  have h : Refs.kwrefs.all kwOk = true := by decide +kernel
+  intro r hr
+  have := (List.all_eq_true.mp h) r hr
+  simpa [kwOk] using this
+
 /-! non-vacuity: the tables are not empty and contain unguarded references that are checked -/
 example : 100 < Refs.refs.length ∧ 10 < Env.modules.length := by decide +kernel
 example : (Refs.refs.filter (fun r => !r.guarded)).length > 100 := by decide +kernel
@@ -79,3 +98,4 @@ example : envHas "numpy.ndarray" "ptp" = false ∧ envHas "numpy.ndarray" "T" = 
 example : ["numpy", "scipy", "h5py"].all (Refs.declaredRequirements.contains ·) = true := by decide +kernel
 example : (Refs.imports.filter (fun i => !i.declared && !i.optional)).length = 0 := by decide +kernel
 example : 20 < Refs.syntaxTable.length ∧ Refs.declaredPython = (3, 6) := by decide +kernel
+example : 20 < Refs.kwrefs.length ∧ 10 < Env.signatures.length := by decide +kernel
